@@ -135,6 +135,60 @@ def _read_all(path):
         f.close()
 
 
+def _reuse_history(path, base_img, img, rec2, via, pre):
+    """ONE long-lived object (UKVFile handle / Collection) goes through the whole recovery: optionally it has already been used on the
+    intact library (pre), then the crash image appears on disk (another process' append died), then on the SAME object: a reading use,
+    a writing use with the recovery puts, a reading use.  Returns (view after the first reading use, view at the end)."""
+    from molli.storage.ukvfile import UKVFile
+
+    with open(path, "wb") as fh:
+        fh.write(base_img if pre else img)
+    if via == "raw":
+        f = UKVFile(path, "r")
+        list(f.keys())
+        f.close()
+        if pre:
+            f.open("a")          # ... and as a writer (nothing written)
+            f.close()
+            with open(path, "wb") as fh:
+                fh.write(img)
+        f.open("r")
+        ks1 = list(f.keys())
+        v1 = {k: f.get(k) for k in ks1}
+        f.close()
+        f.open("a")
+        for k, v in rec2:
+            f.put(k, v)
+        f.close()
+        f.open("r")
+        ks2 = list(f.keys())
+        v2 = {k: f.get(k) for k in ks2}
+        f.close()
+        return (ks1, v1), (ks2, v2)
+    from molli.storage import Collection, UkvCollectionBackend
+    import atexit
+
+    c = Collection(path, UkvCollectionBackend, readonly=False, bufsize=10**6 if via == "coll_buf" else -1)
+    atexit.unregister(c._backend.flush)
+    with c.reading():
+        sorted(c.keys())
+    if pre:
+        with c.writing():
+            pass
+        with open(path, "wb") as fh:
+            fh.write(img)
+    with c.reading():
+        ks1 = [k.encode() for k in c.keys()]
+        v1 = {k: c[k.decode()] for k in ks1}
+    with c.writing():
+        for k, v in rec2:
+            c[k.decode("ascii")] = v
+    with c.reading():
+        ks2 = [k.encode() for k in c.keys()]
+        v2 = {k: c[k.decode()] for k in ks2}
+    return (ks1, v1), (ks2, v2)
+
+
 def _kenc(k: bytes, via) -> bytes:
     return k if via == "raw" else k.decode("latin-1").encode()
 
@@ -163,6 +217,7 @@ def check(recipe) -> list[Fail]:
     second = recipe.get("second_crash_every", 0)
     path = _path("s")
     wpath = _path("w")
+    w2path = _path("u")
     try:
         f = UKVFile(path, "x", h2=b"c03", b0=b"\x01\x02")
         for k, v in base:
@@ -273,6 +328,25 @@ def check(recipe) -> list[Fail]:
             must2.update(dict(rec2))
             if not check_view(ks2, vals2, {}, must2, p, None, "R2"):
                 continue
+            # R4: the same recovery through ONE long-lived object (handle / Collection re-used across the sessions)
+            if recipe.get("reuse") and (only is not None or stride or p % 2 == 0 or not inside):
+                n_img += 1
+                try:
+                    (ksa, va), (ksb, vb) = _reuse_history(w2path, base_img, img, rec2, via, pre=(p % 4 == 0))
+                except Exception as e:
+                    fail("R4:re-used-object-raises", repr(e)[:200], p)
+                    continue
+                if not check_view(ksa, va, smap, bmap, p, None, "R4:first-read"):
+                    continue
+                if not check_view(ksb, vb, {}, must2, p, None, "R4:after-recovery"):
+                    continue
+                try:
+                    ks4, vals4 = _read_all(w2path)
+                except Exception as e:
+                    fail("R4:reopen-raises", repr(e), p)
+                    continue
+                if not check_view(ks4, vals4, {}, must2, p, None, "R4:fresh-handle"):
+                    continue
             # R3: second crash inside the recovery session
             if second and (only is not None or p % second == 0 or not inside or (p + 1) in bounds or (p - 1) in bounds):
                 rtotal = sum(len(d) for _, d in rlog if d is not None)
@@ -292,7 +366,7 @@ def check(recipe) -> list[Fail]:
                         break
         tally(units=n_img, nontrivial_keys=nt_keys, labels={"images": n_img, "images_inside_a_record": n_inside, f"via={via}": 1})
     finally:
-        for q in (path, wpath):
+        for q in (path, wpath, w2path):
             try:
                 os.unlink(q)
             except OSError:
@@ -319,6 +393,8 @@ def classify(recipe):
         labels.append("second_crash")
     if recipe.get("empty_key") is not None:
         labels.append("has_empty_key")
+    if recipe.get("reuse"):
+        labels.append("recovery_also_through_one_reused_object")
     return False, labels   # non-trivial units are the crash offsets, reported through tally()
 
 
@@ -336,7 +412,7 @@ def strat(tier):
             "recovery": st.lists(small_pair, min_size=0, max_size=2),
             "reuse_torn_key": st.booleans(),
             "second_crash_every": st.sampled_from([0, 0, 17] if not big else [0, 5, 1]),
-            "empty_key": st.one_of(st.none(), st.none(), st.integers(0, 6)),
+            "empty_key": st.one_of(st.none(), st.none(), st.integers(0, 6)), "reuse": st.booleans(),
         }
     )
 
@@ -351,7 +427,7 @@ def enum_big(tier, shard, nshards):
         {"via": "coll", "base": [[1, 0]], "session": [[5, 65535]], "recovery": [[1, 1]], "reuse_torn_key": True, "second_crash_every": 0, "stride": 64},
     ]
     # values past the 1 MiB / 4 MiB marks (size thresholds of any "large record" path)
-    mb = {"via": "raw", "base": [[3, 10]], "session": [[4, (1 << 20) + 4097], [2, 5]], "recovery": [[2, 5]], "reuse_torn_key": True, "second_crash_every": 0, "stride": 8192}
+    mb = {"via": "raw", "base": [[3, 10]], "session": [[4, (1 << 20) + 4097], [2, 5]], "recovery": [[2, 5]], "reuse_torn_key": True, "second_crash_every": 0, "stride": 8192, "reuse": True}
     if tier == "quick":
         cases = cases[1:2] + [mb]
     else:
